@@ -306,6 +306,49 @@ def cleanup(d):
     os.rmdir(d)
 
 
+_small = {}
+
+
+def small_twin_check(ctx, scratch, ops, outs, what):
+    """Re-run reading ops with the harness compiled with tiny initial parser buffers (hook
+    OSMIUM_VERIF_PARSER_INITIAL_BUFFER_SIZE): buffer capacity is unobservable, so the answers must be
+    the same; a raw pointer/reference kept across a buffer growth shows up as a difference."""
+    if 'bins' not in _small:
+        bins = []
+        for size in (64, 200):
+            b, err = vlib.build_cpp('text_small%d' % size, ['text.cpp'],
+                                    flags=['-DOSMIUM_VERIF_PARSER_INITIAL_BUFFER_SIZE=%d' % size, '-DOSMIUM_VERIF_PBF_INITIAL_BUFFER_SIZE=%d' % size])
+            if b is None:
+                ctx.violation('text-harness-build-small', 'harness/text.cpp (small initial buffers) does not compile: ' + err[-600:],
+                              {'kind': 'harness-build', 'stderr': err}, found_input=False)
+                bins = []
+                break
+            import shutil
+            local = os.path.join(scratch, 'text-harness-small%d' % size)
+            shutil.copy2(b, local)
+            bins.append((size, local))
+        _small['bins'] = bins
+    idx = [i for i, o in enumerate(ops) if o.split(' ', 1)[0] in ('rd', 'rt')]
+    if not idx:
+        return
+    for size, sbin in _small['bins']:
+        rops = [ops[i] for i in idx]
+        rc, out, se = ctx.run_lines([sbin, scratch], '\n'.join(rops) + '\n')
+        ctx.count('small-buffer-twin:%s:%d' % (what, size), len(rops))
+        if rc != 0 or len(out) != len(rops):
+            k = min(len(out), len(rops) - 1)
+            ctx.violation('buffer-size-dependent:text-crash', 'text harness built with %d-byte initial parser buffers exited %d at op `%s`: %s'
+                          % (size, rc, rops[k][:300], se[-400:]), {'kind': 'counterexample', 'op': rops[k][:20000], 'stderr': se[-2000:]})
+            continue
+        for i, a in zip(idx, out):
+            if a != outs[i]:
+                ctx.violation('buffer-size-dependent:text', 'the result of reading depends on the initial size of the parser buffer (%d bytes vs default): `%s` -> `%s` but `%s`'
+                              % (size, ops[i][:200], a[:300], outs[i][:300]),
+                              {'kind': 'counterexample', 'op': ops[i][:20000], 'small': a[:4000], 'default': outs[i][:4000],
+                               'replay': 'feed the op to harness/text.cpp built with -DOSMIUM_VERIF_PARSER_INITIAL_BUFFER_SIZE=%d' % size})
+                break
+
+
 def run_both(ctx, hbin, scratch, ops):
     """-> (impl lines, model lines or None)"""
     text = '\n'.join(ops) + '\n'
@@ -314,6 +357,7 @@ def run_both(ctx, hbin, scratch, ops):
         ctx.violation('text-harness-crash', 'harness exited %d after %d of %d ops: %s' % (rc, len(impl), len(ops), se[-400:]),
                       {'kind': 'harness-crash', 'stderr': se[-2000:], 'op': ops[min(len(impl), len(ops) - 1)][:2000]}, found_input=False)
         return None, None
+    small_twin_check(ctx, scratch, ops, impl, 'stream')
     model = None
     if ctx.exe_build_ok:
         rc, model, se = ctx.run_lines([ctx.model_exe('model_text')], text)
@@ -549,6 +593,7 @@ def _run(ctx, rng, quick, hbin, scratch):
         ctx.violation('text-harness-crash', 'harness exited %d in the round-trip monitor: %s' % (rc, se[-400:]),
                       {'kind': 'harness-crash', 'stderr': se[-2000:]}, found_input=False)
         return
+    small_twin_check(ctx, scratch, mon_ops, mon, 'monitor')
     for o, exp, r in zip(mon_ops, mon_expect, mon):
         ctx.note_case(o)
         w = o.split()
